@@ -41,7 +41,7 @@ Inductive c16_case :=
    and optionally get_formatted() of the same ExceptionInfo object asked again after a
    further edit of the files *)
 | CaseSess (steps : list (list live_frame * live_exc * str * ei_obs * option str))
-(* one of the three compiled patterns (0 = _frame_re, 1 = _se_frame_re, 2 = _underline_re)
+(* one of the three compiled patterns (0 = _frame_re, 1 = _se_frame_re, 2 = _underline_re, 3 = _repeat_re)
    applied with .match to a string: None, or the list of its groups *)
 | CaseRe (which : N) (s : str) (groups : option (list str)).
 
@@ -60,13 +60,10 @@ Definition rt_input_ok (T : tb) (ms : list (option str)) (text : str) : bool :=
 Definition rt_verdict (T : tb) ms text parsed printed : verdict :=
   let '(mp, ms') := model_parse_print text in
   let agree := rtb_eqb mp parsed && rstr_eqb ms' printed in
-  let w := wf P T && markers_ok ms in
+  let w := wf P T && markers_ok ms && src_consistent (t_frames T) in
   let input := rt_input_ok T ms text in
   let holds := input && (negb w || (rtb_eqb parsed (Ok T) && rstr_eqb printed (Ok (std_text T)))) in
-  (* open finding: the interpreter folds recursive entries, from_string does not
-     know the folding line; everything else about the case must be in order *)
-  let known := input && w && long_repeat (t_frames T) in
-  (agree, holds, known).
+  (agree, holds, false).
 
 (* ---- live exceptions ------------------------------------------------------------------ *)
 Definition cp_obs_eqb (a b : cp_obs) : bool :=
@@ -131,11 +128,9 @@ Definition ei_verdict (fs : list live_frame) (e : live_exc) (interp : str) (o : 
      exception text has the transcribed shape and the whole text is the Spec's rendering *)
   let spec_valid := is_some (hint_of e) && str_eqb (ex_shown e) (exc_text (t_type T) (t_msg T)) &&
                     str_eqb interp (std_text T) in
-  let rep := long_repeat (t_frames T) in
   let special := negb (plain_exc e) in
-  (* ParsedException reads ExceptionInfo's output back whenever the text is well-formed (and
-     not folded: the recorded finding about parsing) *)
-  let reparse := negb (wf P T) || rep || special ||
+  (* ParsedException reads ExceptionInfo's output back whenever the text is well-formed *)
+  let reparse := negb (wf P T && src_consistent (t_frames T)) || special ||
                  match eo_more o with Some (_, _, _, r) => rtb_eqb r (Ok T) | None => true end in
   let holds := spec_valid && ei_clauses fs e o T (std_text T) && reparse in
   (* recorded findings: display-time suggestions, failing __str__; the implementation must then
@@ -158,14 +153,16 @@ Definition model_re (which : N) (s : str) : option (list str) :=
          | Some (p, n, _) => Some [p; n]
          | None => None
          end
-  | _ => if underline_re s then Some [] else None
+  | 2 => if underline_re s then Some [] else None
+  | _ => match repeat_re P s with Some d => Some [d] | None => None end
   end.
 
 Definition spec_re (which : N) (s : str) : option (list str) :=
   match which with
   | 0 => re_match P gen_frame_items gen_frame_groups s
   | 1 => re_match P gen_se_items gen_se_groups s
-  | _ => re_match P gen_underline_items gen_underline_groups s
+  | 2 => re_match P gen_underline_items gen_underline_groups s
+  | _ => re_match P gen_repeat_items gen_repeat_groups s
   end.
 
 (* a step of a session is judged like a single live exception; in addition the model says
